@@ -207,6 +207,25 @@ inline SymProblem gen_sym(const Desc& d)
                     M(i, j) = M(j, i) = r.sym();
         p.A = M;
     }
+    else if (fam == "rowsum")
+    {
+        // symmetric with constant row sums c: the vector of ones is an eigenvector to full working accuracy but (after rounding
+        // to the working type) not exactly - the residual of the step-1 factorization is tiny and NONZERO
+        const LD c = (LD) d.i("rs", 3);
+        MatL M = MatL::Zero(n, n);
+        for (int i = 0; i < n; i++)
+            for (int j = 0; j < i; j++)
+                M(i, j) = M(j, i) = r.sym();
+        for (int i = 0; i < n; i++)
+        {
+            LD sum = 0;
+            for (int j = 0; j < n; j++)
+                if (j != i)
+                    sum += M(i, j);
+            M(i, i) = c - sum;
+        }
+        p.A = M;
+    }
     else if (fam == "zero")
     {
         p.A = MatL::Zero(n, n);
@@ -506,6 +525,23 @@ inline GenProblem gen_gen(const Desc& d)
     else if (fam == "ident")
     {
         p.A = MatL::Identity(n, n);
+    }
+    else if (fam == "rowsum")
+    {
+        // constant row sums: ones is a right eigenvector to working accuracy (see gen_sym)
+        const LD c = (LD) d.i("rs", 3);
+        p.A.resize(n, n);
+        for (int i = 0; i < n; i++)
+        {
+            LD sum = 0;
+            for (int j = 0; j < n; j++)
+                if (j != i)
+                {
+                    p.A(i, j) = r.sym();
+                    sum += p.A(i, j);
+                }
+            p.A(i, i) = c - sum;
+        }
     }
     else if (fam == "nilp")
     {
